@@ -199,6 +199,16 @@ CHECKS = {
         "global map was reported by the model itself); the harness serializes real values of every listed type in JSON and CBOR, compares "
         "the emitted names with the table, deserializes and compares for equality, and parses every printed form back.",
    note="leaf codecs sampled; serde_json 1.x / serde_cbor 0.8; one known finding (CBOR + flatten + enum)."),
+ "C10": dict(
+   cat="exploration", design="§4 C10",
+   technique="TLA+ call / outcome specification with no Panic transition and an allocation bound; recorded calls of every fallible entry "
+             "point on corpus mutations, random inputs and degenerate arguments (catch_unwind + counting allocator) validated as traces; "
+             "panics in the other specifications' mutation neighbourhoods judged as well",
+   text="Exploration, not model checking: the specification contributes the outcome alphabet, the allocation bound and -- through the other "
+        "modules -- structured neighbourhoods; the harness calls every fallible public entry point named by the property on mutated "
+        "repository vectors, generated values, random inputs and degenerate in-memory arguments and every call is checked (and trace-"
+        "validated) for a regular outcome within the allocation bound; a harness process killed by a signal counts as a violation.",
+   note="sampled, no coverage guidance; documented panic conditions excluded; bound 64 MiB + 256 B/byte."),
 }
 NA_PENDING = "check not built yet in this round (planned, see DESIGN.md §4)"
 
